@@ -33,7 +33,7 @@ def plan(tier, seed):
         dates = sorted(set(ds) | {d - one for d in ds if d - one >= datetime.date(2015, 1, 1)})
     else:
         dates = sorted({datetime.date(2015, 1, 1), datetime.date(2019, 6, 30), datetime.date(2019, 7, 1), datetime.date(2022, 9, 30),
-                        datetime.date(2022, 10, 1), datetime.date(2023, 7, 1), ds[int(r.integers(0, len(ds)))]})
+                        datetime.date(2022, 10, 1), datetime.date(2023, 7, 1), datetime.date(2024, 1, 1), ds[-1], ds[int(r.integers(0, len(ds)))]})
     items = []
     for d in dates:
         for combo in range(8):
@@ -86,8 +86,28 @@ def run_item(item):
     probe = popgen.replicate_with_wages(base, [1000.0])
     pr = env.simulate(probe, params, functions, ["minijob_grenze", "in_gleitzone"])
     mini = float(pr["minijob_grenze"].iloc[0])
+    # the statutory limit of marginal employment, re-derived from the parameters of this date (value or minimum wage x
+    # factor / divisor, then the rounding the parameters prescribe for it) - independent of the computed node
+    from fractions import Fraction
+
+    from vf.refmodels import round_ref
+
+    raw_mini = (sv.get("geringfügige_eink_grenzen_m") or {}).get("minijob")
+    if isinstance(raw_mini, dict):
+        raw_mini = raw_mini[region]
+    if raw_mini is None and sv.get("geringf_eink_faktor") is not None:
+        raw_mini = sv["mindestlohn"] * sv["geringf_eink_faktor"] / sv["geringf_eink_divisor"]
+    spec = (sv.get("rounding") or {}).get("minijob_grenze")
+    mini_ref = None
+    if raw_mini is not None:
+        mini_ref = float(round_ref(float(raw_mini), spec["base"], spec["direction"]) + Fraction(spec.get("to_add_after_rounding", 0))) if spec else float(raw_mini)
+        if mini != mini_ref:
+            viol("minijob_grenze:differs_from_parameters", f"the limit of marginal employment is {mini!r} in the run but {mini_ref!r} by the parameters of "
+                                                           f"{item['date']} (raw value {raw_mini!r}, rounding {spec})")
     midi = sv["geringfügige_eink_grenzen_m"].get("midijob") if isinstance(sv.get("geringfügige_eink_grenzen_m"), dict) else None
     bounds = dict(minijob=mini, **{f"ceiling_{k}": v for k, v in ceil.items()})
+    if mini_ref is not None:
+        bounds["minijob_by_parameters"] = mini_ref
     if midi is not None:
         bounds["midijob"] = float(midi)
     for b in bounds.values():
@@ -141,6 +161,13 @@ def run_item(item):
             i = int(np.argmax((an != 0) & marg))
             viol(f"{br}:nonzero_marginal", f"{tag}: employee contribution {an[i]!r} under marginal employment (wage {w[i]!r})")
         ok("zero_under_marginal_employment")
+        if mini_ref is not None:
+            marg_ref = w <= mini_ref
+            if (an[marg_ref] != 0).any():
+                i = int(np.argmax((an != 0) & marg_ref))
+                viol(f"{br}:nonzero_below_statutory_limit", f"{tag}: employee contribution {an[i]!r} at wage {w[i]!r}, not above the statutory limit "
+                                                            f"of marginal employment {mini_ref!r}")
+            ok("zero_up_to_statutory_limit")
         c = ceil[cb]
         above = w >= c
         res["above_ceiling_persons"] += int(above.sum())
